@@ -1,10 +1,12 @@
 mod log;
+mod fstream;
 use hcommon::parse_cli;
 
 fn main() {
     let cli = parse_cli();
     match cli.domain.as_str() {
         "log" => log::run(&cli),
+        "fstream" => fstream::run(&cli),
         d => {
             eprintln!("unknown domain {d}");
             std::process::exit(2);
